@@ -200,12 +200,17 @@ func genBatchPoints(t *rapid.T, l Layout, now int64, id int, o histGenOpts) []MP
 	return normalizeBatch(l, now, id, pts)
 }
 
-// nanWritable: a write may carry the value NaN (a value like any other for the slot it lands in: copy -copy-nan
-// and sum-copy store it) where it cannot reach an aggregation - the coarsest archive by name, or a
-// single-archive file. How a stored NaN enters an aggregate is not asserted anywhere (zone Z8).
+// nanWritable: a write may carry the value NaN - a value like any other for the slot it lands in (copy -copy-nan
+// and sum-copy store it). A stored NaN-valued point is a known value of its interval ("the values currently
+// stored"): it counts towards xFilesFactor and enters sum / average / last / first as IEEE arithmetic has it.
+// For max and min the outcome of comparing with NaN is not defined by the statement (zone Z8): there NaN is
+// written only where it cannot reach an aggregation (the coarsest archive by name, a single-archive file).
 func nanWritable(l Layout, id int, o histGenOpts) bool {
 	if o.UniqueValues {
 		return false
+	}
+	if l.Method != 4 && l.Method != 5 {
+		return true
 	}
 	return len(l.Archives) == 1 || id == len(l.Archives)-1
 }
